@@ -94,6 +94,8 @@ def instrumented(prog, info, route, supplied, x, part, late_deleted=False):
     fn = wd.f
     events = []
     active = []
+    current = [x]
+    warmup = [False]
     try:
         if route == "tooled+overlay":
             fn = getattr(wd, "instrumented_fn", None)
@@ -148,7 +150,10 @@ def instrumented(prog, info, route, supplied, x, part, late_deleted=False):
                 if mode == "const":
                     p.override(supply_value(name, x, "const"))
                 else:
-                    p.filter(lambda ev: x % 2 == 1).override(supply_value(name, 1, "odd"))
+                    # declines on even inputs (decided when the event arrives: `current` is the input
+                    # of the call that is running)
+                    p.filter(lambda ev: current[0] % 2 == 1).override(supply_value(name, 1, "odd"))
+                    warmup[0] = True
                 p.__enter__()
                 active.append(p)
             elif mode == "const":
@@ -191,6 +196,16 @@ def instrumented(prog, info, route, supplied, x, part, late_deleted=False):
         if late_deleted:
             # the global existed when the probes were activated and is gone when the function is called
             wd.ns.pop("LATER", None)
+        if warmup[0]:
+            # the same probes first see a call with the other parity (supplied when this one is declined
+            # and vice versa): what one call was given must not carry over to the next
+            current[0] = x + 1
+            try:
+                fn(x + 1, *([wd.ns["OBJ"](5)] if "o" in prog.flags else []))
+            except BaseException:
+                pass
+            current[0] = x
+            del events[:]
         obs = P.run(wd, fn, x, None, prog.flags)
         if obs[0][0] == "exc":
             wd.reset()
